@@ -195,6 +195,21 @@ def check_property(pid, tier, seed, shared=None):
     with open(os.path.join(EVID, pid + '.json'), 'w') as f:
         json.dump(ev, f, indent=1)
 
+    if tier == 'thorough':
+        from . import thorough
+        tt, _ = thorough.tightness(pid, workers=3)
+        ev['coverage']['tightness_mutants'] = tt
+        # Kani leaves: complete (loop-free, full-domain) proofs on the compiled code; a failing one is a violation of C05/C01
+        if pid in ('C05', 'C01') and extra.get('kani_failed'):
+            for h in extra['kani_failed']:
+                violations.append(('kani:' + h, [{'message': 'Kani harness failed', 'spans': [], 'site_line': None, 'site_text': None,
+                                                   'detail': extra['coverage']['kani_leaves']['harnesses'][h]['tail']}]))
+                G.obligations['kani:' + h] = {'oid': 'kani:' + h, 'fid': 'libfs::try_copy_file_range', 'kind': 'kani-leaf', 'tags': ['C05', 'C01'],
+                                              'text': 'loop-free Kani harness over full-domain symbolic inputs', 'origin': 'vx/thorough.py'}
+            ev['violations'] = len(violations)
+        with open(os.path.join(EVID, pid + '.json'), 'w') as f:
+            json.dump(ev, f, indent=1)
+
     # bounded stand-ins on the real code (labelled bounded, never counted in obligations/discharged)
     bounded_viol = None
     if pid == 'C09':
